@@ -2,90 +2,141 @@
 (***************************************************************************)
 (* Trace validation for HGMSplit (binding direction A).                     *)
 (*                                                                          *)
-(* A trace is what a logging subclass of GaussianMixture and a wrapper of   *)
-(* _compute_bic_tolerance observed during one real                          *)
-(* HierarchicalGaussianMixture.fit, followed by the final labelling and the *)
-(* labels returned by predict:                                              *)
-(*   "E"  one candidate evaluation: cluster size, order ranks of the BIC    *)
-(*        improvement and of its threshold, whether child.predict was       *)
-(*        called, and the 0/1 labels it returned (by position in the        *)
-(*        cluster, whose indices the code keeps in increasing order)        *)
-(*   "K"  n_clusters_            "L"  labels_                               *)
-(*   "P"  one distinct label value returned by predict on the query set     *)
-(* Only the oracle answers are taken from the trace; the split loop itself  *)
-(* (which cluster is evaluated next, which split is accepted, when the loop *)
-(* stops, the labels) is computed by the ORIGINAL HGMSplit actions, which   *)
-(* are conjoined here, so every HGMSplit invariant is evaluated on every    *)
-(* state of every validated trace.  A trace that cannot be matched gets     *)
-(* stuck; accepted traces print <<"ACCEPTED", tid>>.                        *)
+(* What is validated is the DECISIONS of one real                           *)
+(* HierarchicalGaussianMixture.fit, not its protocol of mixture-model       *)
+(* calls.  From everything a logging subclass of GaussianMixture (and a     *)
+(* wrapper of _compute_bic_tolerance) saw during the fit - in whatever      *)
+(* order, however often - checks/c15.py builds the OBSERVED ORACLE as a     *)
+(* function of the cluster:                                                 *)
+(*   orc  one entry per cluster whose improvement was observed:             *)
+(*        ids   the cluster (set of point ids)                              *)
+(*        imp   order rank of  bic(1 component) - bic(2 components)         *)
+(*        thr   order rank of the cluster's threshold                       *)
+(*        known the two-component model of this cluster was asked for a     *)
+(*              partition;  c1 = the points it labelled 0                   *)
+(* and the observed OUTCOME:                                                *)
+(*   K         n_clusters_           labels    labels_                      *)
+(*   preds     the distinct labels returned by predict on the query set     *)
+(*   splits    the accepted splits <<iteration, parent position>> parsed    *)
+(*             from the verbose output (hasSplits = FALSE: nothing could be *)
+(*             parsed, not compared - wording is not part of the property)  *)
+(*                                                                          *)
+(* The specification is run DETERMINISTICALLY with that oracle by the       *)
+(* ORIGINAL HGMSplit actions, which are conjoined here (every HGMSplit      *)
+(* invariant is evaluated on every state), and its final K / labelling /    *)
+(* accepted splits are compared with the outcome.  Verdicts are total; one  *)
+(* line <<"VERDICT", tid, v>> is printed per trace:                         *)
+(*   "accepted"                                                             *)
+(*   "n-clusters" | "labels" | "accepted-splits" | "predict-range"          *)
+(*        the first clause in which outcome and specification differ        *)
+(*   "output-range"  (only judged when the run is inconclusive) the outcome *)
+(*        itself breaks the property: K outside 1..cap, a label or a        *)
+(*        prediction outside [0, K)                                         *)
+(*   "inconclusive:improvement" | "inconclusive:partition"                  *)
+(*        the specification needs an oracle value the code never computed:  *)
+(*        the trace cannot be bound (counted, not a violation)              *)
 (*                                                                          *)
 (* HGMTraceData.tla (generated per batch by checks/c15.py; the copy in the  *)
-(* repository is a two-trace example) defines                               *)
-(*   Traces == << [n, minPts, maxIter, ev : Seq(event)], ... >>             *)
+(* repository is a two-trace example) defines  Traces == << ... >>.         *)
 (***************************************************************************)
-EXTENDS HGMSplit, SequencesExt, HGMTraceData
+EXTENDS HGMSplit, HGMTraceData
 
-VARIABLES tid, l
+VARIABLES tid,      \* the trace this behaviour validates
+          verdict,  \* "none" until judged
+          todo      \* predicted labels still to be taken through Predict
 
-tvars == <<tid, l>>
-allvars == <<vars, tid, l>>
+tvars == <<tid, verdict, todo>>
+allvars == <<vars, tid, verdict, todo>>
 
 T == Traces[tid]
-HasEv == l <= Len(T.ev)
-Ev == T.ev[l]
 
 TraceInit ==
     /\ tid \in 1..Len(Traces)
-    /\ l = 1
+    /\ verdict = "none"
+    /\ todo = Traces[tid].preds
     /\ InitWith(Traces[tid].n, Traces[tid].minPts, Traces[tid].maxIter)
 
-\* steps of the loop that consult no oracle are not logged
+\* steps of the loop that consult no oracle
 Internal ==
+    /\ verdict = "none"
     /\ (BeginIter \/ CapStop \/ SkipSmall \/ AcceptBest \/ Stop \/ Finalize)
     /\ UNCHANGED tvars
 
-SortedIds(C) == SetToSortSeq(C, LAMBDA a, b : a < b)
+\* the observed answer for cluster C
+Entries(C) == {i \in 1..Len(T.orc) : T.orc[i].ids = C}
+Entry(C) == T.orc[CHOOSE i \in Entries(C) : TRUE]
 
+Judge(v) == verdict' = v /\ PrintT(<<"VERDICT", tid, v>>)
+
+\* the outcome on its own: K within the cap, every point one label in [0, K), predictions in [0, K)
+OutputSane ==
+    /\ T.K \in 1..(maxIter + 1)
+    /\ Len(T.labels) = n
+    /\ \A p \in 1..n : T.labels[p] \in 0..(T.K - 1)
+    /\ T.preds \subseteq 0..(T.K - 1)
+
+Need == pc = "for" /\ idx <= Len(clusters) /\ Cardinality(clusters[idx]) >= minPts /\ verdict = "none"
+
+\* one candidate evaluation, answered by the observed oracle
 TraceEval ==
-    /\ HasEv /\ Ev.ev = "E"
-    /\ pc = "for" /\ idx <= Len(clusters)
-    /\ Cardinality(clusters[idx]) = Ev.size           \* the code evaluates the cluster the spec evaluates
-    /\ Ev.asked = Asked(Ev.imp, Ev.thr)               \* and asks for a partition exactly when the spec does
-    /\ LET srt == SortedIds(clusters[idx])
-           c1  == IF Ev.asked THEN {srt[j] : j \in {i \in 1..Len(srt) : Ev.lab[i] = 0}} ELSE {}
-       IN  /\ (Ev.asked => Len(Ev.lab) = Ev.size /\ \A i \in 1..Len(srt) : Ev.lab[i] \in {0, 1})
-           /\ EvaluateWith(Ev.imp, Ev.thr, c1)
-    /\ l' = l + 1 /\ tid' = tid
+    /\ Need
+    /\ Entries(clusters[idx]) # {}
+    /\ LET e == Entry(clusters[idx])
+           asked == Asked(e.imp, e.thr)
+       IN  /\ (asked => e.known)
+           /\ EvaluateWith(e.imp, e.thr, IF asked THEN e.c1 ELSE {})
+    /\ UNCHANGED tvars
 
-TraceK ==
-    /\ HasEv /\ Ev.ev = "K"
-    /\ pc = "done"
-    /\ K = Ev.K
-    /\ l' = l + 1 /\ UNCHANGED <<vars, tid>>
+\* the specification needs an answer the code never computed
+TraceUnbound ==
+    /\ Need
+    /\ LET C == clusters[idx]
+           what == IF Entries(C) = {} THEN "inconclusive:improvement"
+                   ELSE IF Asked(Entry(C).imp, Entry(C).thr) /\ ~Entry(C).known THEN "inconclusive:partition"
+                   ELSE "none"
+       IN  /\ what # "none"
+           /\ pc' = "inconclusive"
+           /\ Judge(IF OutputSane THEN what ELSE "output-range")
+    /\ UNCHANGED <<n, minPts, maxIter, clusters, iter, idx, best, oracle, log, splits, labels, K, query, pred, tid, todo>>
 
-TraceLabels ==
-    /\ HasEv /\ Ev.ev = "L"
-    /\ pc = "done"
-    /\ labels = Ev.labels
-    /\ l' = l + 1 /\ UNCHANGED <<vars, tid>>
+\* specification finished: compare with the outcome
+SpecSplits == [s \in 1..Len(splits) |-> <<splits[s].it, splits[s].parent>>]
 
+Clause ==
+    IF T.K # K THEN "n-clusters"
+    ELSE IF T.labels # labels THEN "labels"
+    ELSE IF T.hasSplits /\ T.splits # SpecSplits THEN "accepted-splits"
+    ELSE IF ~(T.preds \subseteq 0..(K - 1)) THEN "predict-range"
+    ELSE "accepted"
+
+TraceJudge ==
+    /\ pc = "done" /\ verdict = "none"
+    /\ Judge(Clause)
+    /\ pc' = IF Clause = "accepted" THEN "done" ELSE "rejected"
+    /\ UNCHANGED <<n, minPts, maxIter, clusters, iter, idx, best, oracle, log, splits, labels, K, query, pred, tid, todo>>
+
+Min(S) == CHOOSE x \in S : \A y \in S : x <= y
+
+\* every distinct predicted label goes through the specification's Predict
 TracePredict ==
-    /\ HasEv /\ Ev.ev = "P"
-    /\ PredictWith([kind |-> "any", k |-> -1], Ev.label)
-    /\ l' = l + 1 /\ tid' = tid
+    /\ verdict = "accepted" /\ todo # {}
+    /\ PredictWith([kind |-> "any", k |-> -1], Min(todo))
+    /\ todo' = todo \ {Min(todo)}
+    /\ UNCHANGED <<tid, verdict>>
 
 TraceAccept ==
-    /\ ~HasEv
+    /\ verdict = "accepted" /\ todo = {}
     /\ pc \in {"done", "predicted"}
-    /\ PrintT(<<"ACCEPTED", tid>>)
     /\ pc' = "accepted"
-    /\ UNCHANGED <<n, minPts, maxIter, clusters, iter, idx, best, log, splits, labels, K, query, pred, tid, l>>
+    /\ UNCHANGED <<n, minPts, maxIter, clusters, iter, idx, best, oracle, log, splits, labels, K, query, pred, tid, verdict, todo>>
 
-TraceNext == Internal \/ TraceEval \/ TraceK \/ TraceLabels \/ TracePredict \/ TraceAccept
+TraceNext == Internal \/ TraceEval \/ TraceUnbound \/ TraceJudge \/ TracePredict \/ TraceAccept
 
 TraceSpec == TraceInit /\ [][TraceNext]_allvars
 
-\* the position in the trace only moves forward, and an accepted trace was read to its end
-TraceProgress == pc = "accepted" => l = Len(T.ev) + 1
+\* a behaviour ends judged, and an accepted one only after every predicted label went through Predict
+TraceProgress ==
+    /\ (pc \in {"accepted", "rejected", "inconclusive"} => verdict # "none")
+    /\ (pc = "accepted" => verdict = "accepted" /\ todo = {})
 
 =============================================================================
